@@ -1,3 +1,86 @@
 import TlsModel.Proto
-/- driver stub for C07: replaced when the model exists -/
-def main : IO Unit := Tls.protoMain (fun _ => none)
+import TlsModel.Interop
+/-
+  Driver for C07 (expectation model only; OpenSSL is observed by the harness, not modelled).
+    expect cVers cSuites cGroups cSigs sVers sSuites sGroups sSigs sDhLegacy keyType keyCurve
+        lists: comma separated decimal code points, `-` = empty
+        keyType: rsa | rsapss | ecdsa | ed25519 | ed448 | dsa | none ; keyCurve: group id (0 if n/a)
+        -> ok <version> <suite>:<g>,<g>;<suite>:-;...   |   fail <reason>
+    alpn cProtos sProtos      (comma separated tokens)  -> comma separated common protocols | -
+    suite id                  -> <kx> <auth> <tls12Only>  | unknown
+    vok id version            -> true|false   (suite defined for the version)
+    ccert version cGroups sGroups keyType keyCurve      -> true|false  (client certificate usable)
+    resume mech cMechs sMechs v0 s0 <expect-args...>    -> true|false
+-/
+open Tls Tls.Interop
+
+def parseNats (s : String) : Option (List Nat) :=
+  if s == "-" then some [] else (s.splitOn ",").mapM (·.toNat?)
+
+def parseToks (s : String) : List String :=
+  if s == "-" then [] else s.splitOn ","
+
+def parseKey (t : String) (curve : Nat) : Option KeyType :=
+  match t with
+  | "rsa" => some .rsa
+  | "rsapss" => some .rsaPss
+  | "ecdsa" => some (.ecdsa curve)
+  | "ed25519" => some .ed25519
+  | "ed448" => some .ed448
+  | "dsa" => some .dsa
+  | "none" => some .none
+  | _ => none
+
+def parseMech (t : String) : Option Mech :=
+  match t with
+  | "sid" => some .sessionId
+  | "ticket" => some .ticket
+  | "psk" => some .psk
+  | _ => none
+
+def kxOut : Kx → String
+  | .rsa => "rsa" | .dhe => "dhe" | .ecdhe => "ecdhe" | .dhAnon => "dhanon" | .ecdhAnon => "ecdhanon"
+  | .tls13 => "tls13"
+
+def authOut : Auth → String
+  | .rsa => "rsa" | .ecdsa => "ecdsa" | .dss => "dss" | .anon => "anon" | .any => "any"
+
+def parseExpect (a : List String) : Option (Caps × Caps × KeyType) :=
+  match a with
+  | [cv, cs, cg, csig, sv, ss, sg, ssig, sdh, kt, kc] => do
+    let c : Caps := ⟨← parseNats cv, ← parseNats cs, ← parseNats cg, ← parseNats csig, []⟩
+    let s : Caps := ⟨← parseNats sv, ← parseNats ss, ← parseNats sg, ← parseNats ssig, ← parseNats sdh⟩
+    let k ← parseKey kt (← kc.toNat?)
+    some (c, s, k)
+  | _ => none
+
+def handle : List String → Option String
+  | "expect" :: rest => do
+    let (c, s, k) ← parseExpect rest
+    some (expectedOutcome c s k).render
+  | ["alpn", cp, sp] =>
+    let r := expectedAlpn (parseToks cp) (parseToks sp)
+    some (if r.isEmpty then "-" else ",".intercalate r)
+  | ["ccert", v, cg, sg, kt, kc] => do
+    let k ← parseKey kt (← kc.toNat?)
+    some (boolOut (clientCertOk (← v.toNat?) ⟨[], [], ← parseNats cg, [], []⟩ ⟨[], [], ← parseNats sg, [], []⟩ k))
+  | ["suite", id] => do
+    let id ← id.toNat?
+    match suiteInfo id with
+    | none => some "unknown"
+    | some si => some (kxOut si.kx ++ " " ++ authOut si.auth ++ " " ++ boolOut si.tls12Only)
+  | ["vok", id, v] => do
+    let id ← id.toNat?
+    let v ← v.toNat?
+    match suiteInfo id with
+    | none => some "unknown"
+    | some si => some (boolOut (versionOk si v))
+  | "resume" :: m :: cm :: sm :: v0 :: s0 :: rest => do
+    let m ← parseMech m
+    let cm ← (parseToks cm).mapM parseMech
+    let sm ← (parseToks sm).mapM parseMech
+    let (c, s, k) ← parseExpect rest
+    some (boolOut (resumeExpected m cm sm (← v0.toNat?) (← s0.toNat?) (expectedOutcome c s k)))
+  | _ => none
+
+def main : IO Unit := protoMain handle
